@@ -15,10 +15,10 @@ import (
 
 // C04 — the terminal shows exactly the buffer, cursor on the right cell.
 
-const c04Rule = "sessions of real editing on terminals 8-120 columns wide (biased to narrow): typed ASCII / accented / CJK wide / combining text, fills to k*W-p+{-2..1} (rows exactly filled), recalls of prepared history entries (wide, combining, TABs, multi-line, long), quoted TABs, cursor movements, kills, deletes, undo, yanks, clear-screen, vi command mode; at every wait of the main loop with no helper open the emulated screen (fed with every byte the library wrote) is compared with an independent layout of (prompt last line, buffer, cursor index, width): prompt cells, every buffer cell incl. combining marks, every other cell of the input rows blank, rows of a taller previous frame blank, terminal cursor on the cursor's cell; a frame is wrong only if wrong under both erase-at-margin interpretations; non-trivial = session with a frame that has a soft-wrapped row, an embedded newline, a non-ASCII rune, an exactly filled row, or fewer rows than the frame before; distinct = hash of the case"
+const c04Rule = "sessions of real editing on terminals 8-120 columns wide (biased to narrow): typed ASCII / accented / CJK wide / combining text, fills to k*W-p+{-2..1} (rows exactly filled), recalls of prepared history entries (wide, combining, TABs, multi-line, long), quoted TABs, cursor movements, kills, deletes, undo, yanks, clear-screen, vi command mode, and completion menus / incremental searches opened, used and closed (their own frames are not modelled, but the rows they painted must be blank again in the frame after); at every wait of the main loop with no helper open the emulated screen (fed with every byte the library wrote) is compared with an independent layout of (prompt last line, buffer, cursor index, width): prompt cells, every buffer cell incl. combining marks, every other cell of the input rows blank, rows of a taller previous frame blank, terminal cursor on the cursor's cell; a frame is wrong only if wrong under both erase-at-margin interpretations; non-trivial = session with a frame that has a soft-wrapped row, an embedded newline, a non-ASCII rune, an exactly filled row, or fewer rows than the frame before; distinct = hash of the case"
 
 type C04Step struct {
-	Kind  string `json:"kind"` // type | fill | cmd | hist
+	Kind  string `json:"kind"` // type | fill | cmd | hist | menu | isearch (Text = keys joined by "|")
 	Text  K      `json:"text,omitempty"`
 	Cmd   string `json:"cmd,omitempty"`
 	Count int    `json:"count,omitempty"`
@@ -92,7 +92,27 @@ func genC04(t *rapid.T) *C04Case {
 	for i := 0; i < n; i++ {
 		var s C04Step
 
-		switch rapid.IntRange(0, 9).Draw(t, "kind") {
+		switch rapid.IntRange(0, 10).Draw(t, "kind") {
+		case 10:
+			// a completion menu or an incremental search opened, used and closed
+			s.Kind = rapid.SampledFrom([]string{"menu", "menu", "isearch"}).Draw(t, "helper")
+			keys := []string{}
+
+			if s.Kind == "menu" {
+				for j := rapid.IntRange(0, 4).Draw(t, "nmenu"); j > 0; j-- {
+					keys = append(keys, rapid.SampledFrom([]string{"\t", "\x1b[Z", "\x1b[B", "\x1b[A", "\x1b[C"}).Draw(t, "menukey"))
+				}
+
+				keys = append(keys, rapid.SampledFrom([]string{"ABORT", "\x1b", "\x03", " ", "x"}).Draw(t, "menuend"))
+			} else {
+				for j := rapid.IntRange(0, 3).Draw(t, "nis"); j > 0; j-- {
+					keys = append(keys, rapid.SampledFrom([]string{"e", "o", "l", "\x12"}).Draw(t, "iskey"))
+				}
+
+				keys = append(keys, rapid.SampledFrom([]string{"ABORT", "\x1b"}).Draw(t, "isend"))
+			}
+
+			s.Text = enc([]byte(strings.Join(keys, "|")))
 		case 0, 1:
 			s.Kind = "type"
 			s.Text = enc([]byte(string(rapid.SliceOfN(rapid.SampledFrom(c04Runes), 1, 12).Draw(t, "text"))))
@@ -144,6 +164,25 @@ func runC04(h *Harness, child *rig.Child, c *C04Case) (*Failure, bool) {
 		Binds: e.bindNames(names, mainKeymaps...),
 		Hist:  []proto.HistSpec{{Kind: "mem", Name: "h", Entries: c.Hist}}}
 
+	for _, st := range c.Steps {
+		if st.Kind == "menu" {
+			cands := []proto.Cand{}
+			for i := 0; i < 14; i++ {
+				cd := proto.Cand{Value: fmt.Sprintf("cand%02d", i)}
+				if i%3 == 0 {
+					cd.Desc = fmt.Sprintf("description of %d", i)
+				}
+
+				cands = append(cands, cd)
+			}
+
+			spec.Completer = &proto.CompSpec{Cands: cands, Mode: "word"}
+			spec.Binds = append(spec.Binds, e.bindNames([]string{"menu-complete", "abort"}, mainKeymaps...)...)
+
+			break
+		}
+	}
+
 	d := openDrive(h, child, spec, rig.SessionOpts{Cols: c.Cols, Rows: c.Rows, StartRow: c.Start, KeepScreens: true})
 	defer d.close()
 
@@ -166,6 +205,14 @@ func runC04(h *Harness, child *rig.Child, c *C04Case) (*Failure, bool) {
 		}
 	}
 
+	helperSteps := false
+
+	for _, st := range c.Steps {
+		if st.Kind == "menu" || st.Kind == "isearch" {
+			helperSteps = true
+		}
+	}
+
 	check := func(step string) *Failure {
 		st := d.st
 		ev := st.Ev
@@ -180,7 +227,21 @@ func runC04(h *Harness, child *rig.Child, c *C04Case) (*Failure, bool) {
 
 		if ev.Kind != "main" || ev.Local != "" || strings.Contains(ev.Hint, "-search)") {
 			h.classN("frames-skipped-helper", 1)
+
+			// What a helper (completion menu, search minibuffer and its hint) shows
+			// is not modelled, but how far down it painted is remembered: once the
+			// helper is closed those rows are rows of "a taller previous frame" and
+			// must be blank again (no remnants of earlier content).
 			prevBottom = -1
+
+			if helperSteps {
+				for r := st.X.H - 1; r >= 0; r-- {
+					if !rowBlank(st.X, r) {
+						prevBottom, prevScroll = r, st.X.Scrolled
+						break
+					}
+				}
+			}
 
 			return nil
 		}
@@ -435,6 +496,65 @@ func runC04(h *Harness, child *rig.Child, c *C04Case) (*Failure, bool) {
 					}
 				}
 			}
+
+			continue
+		case "menu", "isearch":
+			// a helper is opened, used and closed: the frames while it is open are
+			// skipped, the frame after it must show the buffer and nothing else
+			if cur.Main == "vi-command" || cur.Local != "" {
+				continue
+			}
+
+			keys := []string{}
+			for _, k := range strings.Split(string(s.Text.dec()), "|") {
+				if k != "" {
+					keys = append(keys, k)
+				}
+			}
+
+			desc = fmt.Sprintf("%s session %q", s.Kind, keys)
+
+			if s.Kind == "menu" {
+				d.send([]byte(e.key("menu-complete")))
+			} else {
+				d.send([]byte("\x12"))
+			}
+
+			for _, k := range keys {
+				if d.st.Kind != "park" || d.st.Ev.Local == "" {
+					break
+				}
+
+				if k == "ABORT" {
+					k = e.key("abort")
+				}
+
+				d.send([]byte(k))
+
+				// a key the helper does not know may be inserted as it is: control
+				// characters in the buffer are outside this check's domain
+				if d.st.Kind == "park" && c04Unprintable(d.st.Ev.Line) {
+					return pending, nt
+				}
+
+				if f := check(fmt.Sprintf("step %d (%s, at %q)", i, desc, k)); f != nil {
+					return f, nt
+				}
+			}
+
+			if d.st.Kind == "park" && d.st.Ev.Local != "" {
+				d.send([]byte(e.key("abort")))
+			}
+
+			if d.st.Kind == "park" && c04Unprintable(d.st.Ev.Line) {
+				return pending, nt
+			}
+
+			if f := check(fmt.Sprintf("step %d (%s, closed)", i, desc)); f != nil {
+				return f, nt
+			}
+
+			h.classN("helper-sessions", 1)
 
 			continue
 		case "hist":
